@@ -14,7 +14,7 @@ PREFIXES = [None, None, None, "", "pre_", "é", "NS::", "p r e "]
 
 DISPLAY_TYPES = {
     "u8": "int", "u16": "int", "i64": "int", "i128": "int", "i8": "int", "usize": "int",
-    "String": "str", "&'static str": "str", "Box<str>": "str",
+    "String": "str", "&'static str": "str", "Box<str>": "str", "std::borrow::Cow<'static, str>": "str",
     "f64": "float", "f32": "float", "char": "char", "bool": "bool",
 }
 NODISPLAY_TYPES = ["Option<u8>", "Vec<u8>", "()"]
@@ -30,7 +30,7 @@ INNER = {
 
 SEGMENTS = [" ", "", "-", ": ", " é ", "{{", "}}", "{{}}", "x", " and ", "日本", "(", ")", "=", "{{ ", " }}", "\\\"", "%",
             # escaped text that LOOKS like a placeholder (must be printed literally)
-            "{{0}}", "{{1}}", "{{0:>4}}", "{{a}}", "{{value:03}}", "{{{{0}}}}", "{{name}} = "]
+            "{{0}}", "{{1}}", "{{0:>4}}", "{{a}}", "{{value:03}}", "{{{{0}}}}", "{{name}} = ", "\n", "\t", "'", "\\"]
 
 FIELD_NAMES = ["a", "b", "name", "value", "x", "count", "_under", "field0", "s", "fmt", "self_", "n1", "ab", "abc", "a1",
                "field1", "na"]
